@@ -33,10 +33,18 @@ type CrashRun struct {
 	maxSnap  int
 	fp       string
 	applied  []bool
+	grabbed       map[string]*grabbedDS
 	walEpochStart int // WAL offsets are only comparable for ops after the last clean restart
 	deletedIDs  map[uint32]bool
 	seenDsIDs   map[uint32]string // internal dataset id -> "name#incarnation"
 	incarnation map[string]int
+}
+
+// grabbedDS is a dataset handle a client obtained earlier and keeps using (as a running job's
+// sink or an HTTP handler does), whatever happens to the dataset meanwhile.
+type grabbedDS struct {
+	ds  *server.Dataset
+	cur string // current name of that dataset, "" once it has been deleted
 }
 
 // noteDatasetIDs records which internal id every live dataset has.
@@ -169,6 +177,12 @@ func (r *CrashRun) verifyState(cs *crashState) *Violation {
 		v.Message = fmt.Sprintf("after crash at %s: %s", cs.desc, v.Message)
 		return v
 	}
+	if prop == "C07" {
+		if v := r.postCrashDatasetProbe(h, cands[matched], cs); v != nil {
+			return v
+		}
+		rs, _ = RawConsistency(h, prop)
+	}
 	// the store accepts writes: change positions strictly increase, internal ids are not reused
 	names := cands[matched].Names()
 	if len(names) > 0 {
@@ -272,7 +286,7 @@ func RunCrashScenario(sc *Scenario) (vd *Verdict) {
 		vd.Verdict, vd.Message = "error", err.Error()
 		return
 	}
-	r := &CrashRun{SeqRun: sr, maxSnap: int(sc.Knob("maxStates", 24)), deletedIDs: map[uint32]bool{}, seenDsIDs: map[uint32]string{}, incarnation: map[string]int{}}
+	r := &CrashRun{SeqRun: sr, maxSnap: int(sc.Knob("maxStates", 24)), deletedIDs: map[uint32]bool{}, seenDsIDs: map[uint32]string{}, incarnation: map[string]int{}, grabbed: map[string]*grabbedDS{}}
 	r.noteDatasetIDs()
 	defer func() {
 		for _, cs := range r.states {
@@ -360,9 +374,33 @@ func RunCrashScenario(sc *Scenario) (vd *Verdict) {
 				r.Stats["ctx_txns"]++
 			}
 			werr = st.ExecuteTransaction(t)
+		case "grab":
+			if d := r.H.Dataset(op.DS); d != nil {
+				r.grabbed[op.DS] = &grabbedDS{ds: d, cur: op.DS}
+			}
+			mgmt = true
+		case "batchStale":
+			g := r.grabbed[op.DS]
+			if g == nil {
+				mgmt = true
+				break
+			}
+			r.Stats["stale_handle_writes"]++
+			werr = g.ds.StoreEntities(r.H.Entities(op.Ents))
+			if werr == nil && g.cur != "" {
+				r.M.Batch(g.cur, op.Ents)
+			} else if werr == nil {
+				r.Stats["stale_handle_writes_to_deleted"]++
+			}
+			mgmt = true
 		case "deleteDataset":
 			if d := r.H.Dataset(op.DS); d != nil {
 				r.deletedIDs[d.InternalID] = true
+			}
+			for _, g := range r.grabbed {
+				if g.cur == op.DS {
+					g.cur = ""
+				}
 			}
 			werr = r.H.Dsm.DeleteDataset(op.DS)
 			mgmt = true
@@ -371,6 +409,13 @@ func RunCrashScenario(sc *Scenario) (vd *Verdict) {
 			mgmt = true
 		case "renameDataset":
 			_, werr = r.H.Dsm.UpdateDataset(op.DS, &server.UpdateDatasetConfig{ID: op.DS2})
+			if werr == nil {
+				for _, g := range r.grabbed {
+					if g.cur == op.DS {
+						g.cur = op.DS2
+					}
+				}
+			}
 			mgmt = true
 		case "gc":
 			werr = server.NewGarbageCollector(r.H.Store, r.H.Env).Cleandeleted()
@@ -384,6 +429,7 @@ func RunCrashScenario(sc *Scenario) (vd *Verdict) {
 			mgmt = true
 			r.fp = FilesFingerprint(r.H.Dir)
 			r.walEpochStart = i + 1
+			r.grabbed = map[string]*grabbedDS{}
 		default:
 			fail(viol(sc.Property, "harness", "invalid", "unknown op kind %q", op.K), i)
 			return
@@ -551,4 +597,48 @@ func opDesc(sc *Scenario, i int) string {
 	}
 	op := sc.Ops[i]
 	return fmt.Sprintf("op %d %s %s%s", i, op.K, op.DS, op.DS2)
+}
+
+// postCrashDatasetProbe creates, fills and deletes a new dataset on a reopened crash state: the
+// new dataset must get an internal id nobody else has or had, and neither its creation, its
+// content nor its deletion may change what the other datasets show.
+func (r *CrashRun) postCrashDatasetProbe(h *Hub, m *Model, cs *crashState) *Violation {
+	const probe = "zzprobe"
+	time.Sleep(time.Nanosecond)
+	d, err := h.Dsm.CreateDataset(probe, nil)
+	if err != nil || d == nil {
+		return viol("C07", "post-crash-dataset", "create-rejected@"+cs.class, "after crash at %s a new dataset cannot be created: %v", cs.desc, err)
+	}
+	for _, n := range h.Store.VerifDatasetNames() {
+		if o := h.Dataset(n); o != nil && n != probe && o.InternalID == d.InternalID {
+			return viol("C07", "post-crash-dataset", "internal-dataset-id-shared@"+cs.class, "after crash at %s the new dataset got internal id %d, which dataset %s already has", cs.desc, d.InternalID, n)
+		}
+	}
+	if h.Store.VerifDeletedDatasets()[d.InternalID] {
+		return viol("C07", "post-crash-dataset", "internal-dataset-id-of-deleted@"+cs.class, "after crash at %s the new dataset got internal id %d of a deleted dataset", cs.desc, d.InternalID)
+	}
+	ents := []Ent{{"id": MkE + "probe1", "props": map[string]any{MkS + "a0": "p"}, "refs": map[string]any{}}}
+	if len(r.Pool) > 0 {
+		ents = append(ents, Ent{"id": r.Pool[0], "props": map[string]any{MkS + "a0": "probe"}, "refs": map[string]any{}})
+	}
+	if err := d.StoreEntities(h.Entities(ents)); err != nil {
+		return viol("C07", "post-crash-dataset", "write-rejected@"+cs.class, "after crash at %s: %v", cs.desc, err)
+	}
+	mm := m.Clone()
+	mm.Create(probe)
+	mm.Batch(probe, ents)
+	if v := r.checkAgainst(h, mm); v != nil {
+		v.Signature = "post-crash-create:" + v.Signature + "@" + cs.class
+		v.Message = fmt.Sprintf("after crash at %s and creating a new dataset: %s", cs.desc, v.Message)
+		return v
+	}
+	if err := h.Dsm.DeleteDataset(probe); err != nil {
+		return viol("C07", "post-crash-dataset", "delete-rejected@"+cs.class, "after crash at %s: %v", cs.desc, err)
+	}
+	if v := r.checkAgainst(h, m); v != nil {
+		v.Signature = "post-crash-delete:" + v.Signature + "@" + cs.class
+		v.Message = fmt.Sprintf("after crash at %s, creating and deleting a new dataset: %s", cs.desc, v.Message)
+		return v
+	}
+	return nil
 }
